@@ -143,7 +143,7 @@ class C11(Prop):
         fname = rng.choice([None, None, 2, 4])
         return ev(rng.choice([None, 0, 1]), rng.choice(STATUSES + ['fail', 'uxsuccess']), tags, rng.random() < 0.8, fname,
                   None if fname is None and rng.random() < 0.9 else rng.choice([[], [65], [0, 255]]), rng.random() < 0.3,
-                  rng.choice([None, 0, 1, 2]), rng.choice([None, None, 'r', 'r/s', '0']), rng.choice([None, None, 1, 5]))
+                  rng.choice([None, 0, 1, 2]), rng.choice([None, None, 'r', 'r/s', '0', '']), rng.choice([None, None, 1, 5]))
 
     def gen(self, rng, tier):
         tree = self.gen_tree(rng, rng.choice([1, 2, 2, 3, 3]), root=True)
